@@ -2,14 +2,31 @@
 
 package fx
 
-import "github.com/fatedier/frp/server"
+import (
+	"fmt"
+	"time"
+
+	"github.com/fatedier/frp/server"
+)
 
 const Hooked = true
 
 type Snapshot = server.VerifSnapshot
 
-// Snapshot returns the server's internal tables (accessor hook).
+// Snapshot returns the server's internal tables (accessor hook). The accessors take the tables' own locks; if the
+// code under test has left one of them held for good, the snapshot never comes back - the caller then gets nil
+// (as without hooks) and a note, and goes on to observe the stall through the protocol.
 func (s *Server) Snapshot() *Snapshot {
-	v := s.Svc.VerifSnapshot()
-	return &v
+	ch := make(chan *Snapshot, 1)
+	go func() {
+		v := s.Svc.VerifSnapshot()
+		ch <- &v
+	}()
+	select {
+	case v := <-ch:
+		return v
+	case <-time.After(5 * time.Second):
+		fmt.Printf("NOTE snapshot: the server's tables could not be read within 5 s (a lock is held)\n")
+		return nil
+	}
 }
